@@ -13,6 +13,8 @@ from wormhole._dilation import manager as M  # noqa: E402
 import z3  # noqa: E402
 
 CONFIGS = {
+    # selection (and every restart) happens while other attempts of the same generation are still in flight
+    "attempts-in-flight": dict(app=False, lazy_tcp=True),
     "plain": dict(app=False),
     "plain-swapped": dict(app=False, sides=("cc" * 8, "11" * 8)),
     "with-app": dict(app=True),
